@@ -5,6 +5,7 @@ import ctypes
 import functools
 import json
 import math
+import re
 import time
 
 from hypothesis import strategies as st
@@ -60,7 +61,7 @@ def _locate(cls: type, off: int) -> str:
             if fi.kind == "struct":
                 return _locate(fi.scls, off - fi.off)
             if fi.kind == "sarr":
-                return "sarr>" + _locate(fi.scls, (off - fi.off) % ctypes.sizeof(fi.scls))
+                return "struct-array-element"
             return fi.kind + ("-" + fi.code if fi.code and fi.kind in ("int", "float", "iarr", "farr") else "")
     return "padding"
 
@@ -81,7 +82,8 @@ def _call(route: str, what: str, trace: dict, fn, *a, **kw):
     try:
         return fn(*a, **kw)
     except Exception as e:
-        raise Violation(f"{route}/raises/{what.split(' ')[0]}/{type(e).__name__}", f"{what} raised {type(e).__name__}: {str(e)[:200]}", trace)
+        tag = re.sub(r"[^A-Za-z_.].*", "", what)
+        raise Violation(f"{route}/raises/{tag}/{type(e).__name__}", f"{what} raised {type(e).__name__}: {str(e)[:200]}", trace)
 
 
 def _disjoint(route: str, what: str, a, b, trace: dict):
